@@ -101,9 +101,22 @@ Qed.
 (* ---------- openFileToReader ---------- *)
 Lemma fd_rest_seek k c : fd_rest (fd_seek0 (fd_advance k (fd_open c))) = c.
 Proof. reflexivity. Qed.
+Lemma skipn_min {A} k (c : list A) : skipn (Nat.min k (length c)) c = skipn k c.
+Proof.
+  destruct (Nat.le_gt_cases k (length c)) as [H|H].
+  - now rewrite Nat.min_l.
+  - rewrite Nat.min_r by lia. rewrite skipn_all. symmetry. apply skipn_all2. lia.
+Qed.
+(* recording what the probe consumed and replaying it delivers the whole content, for every k *)
+Lemma fd_replay_all k c : fd_replay k (fd_open c) = c.
+Proof. unfold fd_replay, fd_read, fd_rest, fd_advance, fd_open. simpl. rewrite skipn_min. apply firstn_skipn. Qed.
 
 Theorem plain_from_first_byte c k : gunzip c = None -> open_input true k (Found (TFile c)) = Some (c, false, 1).
-Proof. intros H. unfold Input.open_input. rewrite H. reflexivity. Qed.
+Proof. intros H. unfold Input.open_input. rewrite H, fd_replay_all. reflexivity. Qed.
+(* the Seek(0) fallback: right on seekable descriptors, loses the probed bytes on pipes *)
+Theorem seek_fallback seekable k c :
+  open_input_seek seekable k c = if seekable then c else skipn (Nat.min k (length c)) c.
+Proof. destruct seekable; reflexivity. Qed.
 Theorem plain_no_gunzip c k : open_input false k (Found (TFile c)) = Some (c, false, 0).
 Proof. reflexivity. Qed.
 Theorem gzip_decoded c k d e : gunzip c = Some (d, e) -> open_input true k (Found (TFile c)) = Some (d, e, 0).
@@ -115,7 +128,7 @@ Lemma open_delivered z k n :
   match open_input z k n with None => None | Some (d, e, _) => Some (d, e) end = delivered z n.
 Proof.
   destruct n as [|[c|es]]; simpl; try reflexivity.
-  destruct z; [|reflexivity]. destruct (gunzip c) as [[d e]|]; reflexivity.
+  destruct z; [|reflexivity]. destruct (gunzip c) as [[d e]|]; [reflexivity|]. now rewrite fd_replay_all.
 Qed.
 
 (* ---------- sources of the reader pool ---------- *)
